@@ -11,7 +11,7 @@ import Cellml.Model.Roles
     graph is a `Model.Node`, an `Eq` object is a `Model.Eqn` (its right-hand side: `M.rhs e.tok`), a python set is the
     list of its elements in the model's traversal order. Core Lean only. -/
 
-namespace Cellml.Tie
+namespace Cellml.Tie.PRoles
 open Model
 
 -- ------------------------------------------------------------------------------------------------ exception classes
@@ -206,4 +206,4 @@ def xreplaceMemo (e : Expr) (d : PyMemo) : Except PyErr Expr :=
     `noDefinition`; `/0`: `arith`; an opaque subterm: `unsupported`, see `verrClass`) -/
 def floatExpr (e : Expr) : Except PyErr Rat := errClass verrClass (evalE [] e)
 
-end Cellml.Tie
+end Cellml.Tie.PRoles
